@@ -1514,6 +1514,8 @@ class Fxp():
         else:
             y = self.deepcopy()
             y.val = y.val >> np.array(n, dtype=y.val.dtype)
+            if not isinstance(y.val, (np.ndarray, np.generic)):
+                y.val = np.array(y.val, dtype=object)   # (numpy unboxes the single python integer of a 64 bits word or wider)
         return y
 
     __irshift__ = __rshift__
